@@ -749,6 +749,7 @@ func TestC10(t *testing.T) {
 		}
 		if i%10 == 1 {
 			c10deviceHandles(rep, seed, i)
+			c10broadcastEcho(rep, seed, i)
 		}
 		if rep.NViolations() > 4 {
 			break
@@ -1514,4 +1515,81 @@ func c10deviceHandles(rep *vh.Report, seed uint64, idx int) {
 		}
 	}
 	rep.Distinct("device-handles", idx, lives)
+}
+
+// c10broadcastEcho: a router on a UDP broadcast endpoint forwards what it receives (WriteFrameAll of the received frame:
+// the very bytes it was sent go out again), and the sender repeats its frame: the repetition is a frame of its own, with a
+// frame event of its own, whatever the node has written in the meantime.
+func c10broadcastEcho(rep *vh.Report, seed uint64, idx int) {
+	if aborted() {
+		return
+	}
+	r := vh.Sub(seed, fmt.Sprintf("c10-bcast-echo-%d", idx))
+	hookReset(r.U64(), false, false)
+	port := freeUDPPort()
+	node := &gomavlib.Node{Endpoints: []gomavlib.EndpointConf{gomavlib.EndpointUDPBroadcast{BroadcastAddress: fmt.Sprintf("127.255.255.255:%d", port), LocalAddress: fmt.Sprintf("127.0.0.1:%d", port)}},
+		Dialect: testDialect, OutVersion: gomavlib.V2, OutSystemID: 82, HeartbeatDisable: true, IdleTimeout: 5 * time.Second}
+	if err := node.Initialize(); err != nil {
+		rep.Inconclusive("C10 broadcast echo: " + err.Error())
+		return
+	}
+	peer, err := net.Dial("udp4", fmt.Sprintf("127.0.0.1:%d", port))
+	if err != nil {
+		safeClose(rep, node)
+		return
+	}
+	defer peer.Close()
+	frames := make(chan *gomavlib.EventFrame, 64)
+	evDone := make(chan struct{})
+	go func() {
+		defer close(evDone)
+		for e := range node.Events() {
+			if fe, ok := e.(*gomavlib.EventFrame); ok {
+				select {
+				case frames <- fe:
+				default:
+				}
+			}
+		}
+	}()
+	next := func() *gomavlib.EventFrame {
+		select {
+		case fe := <-frames:
+			return fe
+		case <-time.After(time.Second):
+			return nil
+		}
+	}
+	rounds := 5 + r.Intn(5)
+	lost := 0
+	for i := 0; i < rounds && lost == 0; i++ {
+		uid := uint64(0xEC)<<56 | uint64(idx)<<16 | uint64(i+1)
+		w := uidFrame(uid, byte(i), 9, false, nil, 0)
+		for rep2 := 0; rep2 < 3 && lost == 0; rep2++ {
+			if _, err := peer.Write(w); err != nil {
+				break
+			}
+			fe := next()
+			rep.Eval(1)
+			rep.Count("broadcast_frames_repeated_after_being_forwarded", 1)
+			if fe == nil {
+				if rep2 == 0 {
+					rep.Count("udp_datagrams_not_delivered", 1) // the first copy: a lost datagram is possible, not judged
+					break
+				}
+				lost++
+				rep.Violation("what=lost ep=udp-broadcast", fmt.Sprintf("a router on a broadcast endpoint forwarded a frame with WriteFrameAll; the sender's repetition of the same frame (copy %d, identical bytes) produced no frame event within 1 s", rep2+1),
+					map[string]interface{}{"frame": vh.Hex(w)})
+				break
+			}
+			// the router forwards what it received
+			_ = node.WriteFrameAll(fe.Frame)
+			time.Sleep(2 * time.Millisecond)
+		}
+	}
+	if !safeClose(rep, node) {
+		return
+	}
+	<-evDone
+	rep.Distinct("bcast-echo", idx)
 }
